@@ -37,3 +37,5 @@ pub use executor::verif_executor;
 
 #[cfg(all(nextest_verif, unix))]
 pub use dispatcher::verif_dispatcher;
+#[cfg(all(nextest_verif, unix))]
+pub use dispatcher::verif_dispatcher_loop;
